@@ -20,6 +20,8 @@ inductive TStep where
   | euiTok (groups : Nat)    -- `(*EUI48).parse` / `(*EUI64).parse`: that many pairs of hex digits with a dash between them
   | nodeId                  -- `stringToNodeID`: four groups of four hex digits with colons
   | salt                    -- the salt of NSEC3PARAM: `saltToString(rr.F)` (`-` when empty, else upper case) / the token, `-` standing for none
+  | uintLax (bits : Nat)    -- `strconv.ParseUint(l.token, 10, bits)` where the token's error flag is not looked at (CSYNC)
+  | typeList                -- the rest of the entry as type mnemonics (NSEC, CSYNC): `" " + Type(t).String()` per type / the loop over `StringToType`, `typeToInt`
   | ipv4                    -- an IPv4 address: `rr.A.String()` / `net.ParseIP(l.token)` with no colon in the token (A)
   | txtFirst                -- one string field: `sprintTxt([]string{rr.F})` / the first chunk of `endingToTxtSlice` (UINFO)
   | blank                   -- `c.Next()` that skips the blank / `" "`
